@@ -86,9 +86,9 @@ package volatility
 // what each New* function returns, read off its literal: fresh, pairwise separate sub-objects, fields equal to the
 // arguments / constants they are initialised with (transitively through nested constructors); proved, not assumed
 //@ func NewBollingerBandsStrategy
-//@ ensures[C06] "fresh-and-separate-objects" fresh(result) && fresh(result.BollingerBands)
-//@ ensures[C06] "configured-as-given" result.BollingerBands.Period == 20
+//@ ensures[C04,C05,C06,C14] "fresh-and-separate-objects" fresh(result) && fresh(result.BollingerBands)
+//@ ensures[C04,C05,C06,C14] "configured-as-given" result.BollingerBands.Period == 20
 
 //@ func NewSuperTrendStrategy
-//@ ensures[C06] "fresh-and-separate-objects" fresh(result)
+//@ ensures[C04,C05,C06,C14] "fresh-and-separate-objects" fresh(result)
 // ---- end of generated constructor contracts ----
